@@ -19,7 +19,8 @@ CLAIMED = {
        "whole streams under an independent decoder is NOT decided. Also (BLKOPT) compressed_size/uncompressed_size of the in/out Block options are reset on every path to lzma_block_header_size() in each function that starts a Block."
        + " Further rules: (FALLBACK) the uncompressed-chunk fallback of the LZMA2 encoder is entered exactly on the documented condition and resets state afterwards."
        + " (DICTROUND) dictionary-size rounding smear has every distance except 1; (BOUND) lzma2_bound in normal form n + 3*ceil(n/65536) + 1; SHA-256 structure rules of C14."
-       + ' (DICTDECL) the match-finder window is derived from the declared dictionary size only.',
+       + ' (DICTDECL) the match-finder window is derived from the declared dictionary size only.'
+       + ' (REWIND) single-call coders restore the position on every error return; (UPD) as in C12.',
   technique="layout-fact extraction and comparison (encoder vs decoder vs spec), expression evaluation on sample values, finite-domain evaluation",
   ref="4/C02"),
  "C14": dict(
@@ -67,7 +68,8 @@ CLAIMED = {
        "exit status with grep/diff/cmp, behaviour of sed/expr/grep themselves. Also: xzdiff decompresses each operand with the decompressor chosen from its own suffix; xzgrep's exit status accumulator only moves under a test of its current value."
        + " xzdiff's three suffix lists are identical."
        + " (STATUS) xzgrep's result accumulator is evaluated over all (res, r) pairs; xzdiff selects a decompressor for each operand from its own name and keeps stdin for a '-' operand."
-       + " (STATUS decomp-failure) a failed decompressor makes the file's status >= 2 for every grep status.",
+       + " (STATUS decomp-failure) a failed decompressor makes the file's status >= 2 for every grep status."
+       + ' (STATUS xzdiff:status-loop, sigpipe-not-ignored).',
   technique="shell AST taint and quoting-context analysis; idiom (typestate) rule on accumulator stores; case-arm coverage of the quote character; constant evaluation of the sed programs",
   ref="4/C20"),
  "C15": dict(
@@ -97,7 +99,8 @@ CLAIMED = {
        "evaluation of io_copy_attrs' two permission expressions over all 4096 mode values (never broader, no special bits); "
        "owner->group->mode->timestamps from the source; --stdout/--test imply --keep; exit status mapping. Name invertibility "
        "for all byte strings is NOT decided. Also (SUFPOS) test_suffix examines src_name[src_len - suffix_len - 1] and compares exactly the last suffix_len bytes."
-       + ' (ATTR) the full permission bits are copied only when the group could be set.',
+       + ' (ATTR) the full permission bits are copied only when the group could be set.'
+       + ' (SUF custom-suffix-always-tested; ATTR group-compared-with-target).',
   technique="table joins, finite-domain abstract evaluation over option combinations and all mode values, edge-cut must-pass",
   ref="4/C19"),
  "C18": dict(
@@ -109,7 +112,8 @@ CLAIMED = {
        "file at end, O_APPEND restored); decoder flag construction. Byte equality across sinks/thread counts is NOT decided. Also: a zero-length write never reaches the lseek that materialises a pending hole; the decoder flags xz sets are exactly TELL_UNSUPPORTED_CHECK, CONCATENATED, IGNORE_CHECK (no FAIL_FAST)."
        + " is_sparse examines every word of the buffer; coder_normal success rules of C17."
        + " The final sparse hole is materialised also when decoding failed (standard output is kept)."
-       + ' (SPARSE position-probe) sparse mode is enabled for stdout only after the current position was compared with the file size; (PERFILE) per-file flags are reset for every file.',
+       + ' (SPARSE position-probe) sparse mode is enabled for stdout only after the current position was compared with the file size; (PERFILE) per-file flags are reset for every file.'
+       + ' (FMT) xz recognises exactly the .lzma files the library decodes.',
   technique="finite-domain path-sensitive reachability (edge/block cuts), dominance and provenance rules over call arguments",
   ref="4/C18"),
  "C17": dict(
@@ -123,7 +127,8 @@ CLAIMED = {
        "io_write_buf). File-system state after kill -9 is NOT decided. Also (RESULT) no bool result of an xz I/O helper is discarded; (PERFILE) file-scope state that coder_init sets conditionally is reset for every file; (EXIT) E_ERROR is sticky in set_exit_status."
        + " Further rules: every probe result (is_tty, stat) that decides skipping a file is tested."
        + " (EOF) src_eof only where read() returned 0."
-       + " (NOFATAL) no message_fatal() is reachable while the incomplete target is open; (EINTR) an EINTR retry on a stdio stream clears its error indicator.",
+       + " (NOFATAL) no message_fatal() is reachable while the incomplete target is open; (EINTR) an EINTR retry on a stdio stream clears its error indicator."
+       + ' (SIG handled-signals) every termination signal xz can get while a target is open has the clean-up handler.',
   technique="finite-domain path-sensitive dataflow, must-pass/dominance rules, call-graph closure, who-may-call",
   ref="4/C17"),
  "C12": dict(
@@ -136,7 +141,8 @@ CLAIMED = {
        "conversion table. That the flushed prefix decodes to the input is NOT decided. Also (BTFLUSH) binary-tree match finders defer to move_pending() during LZMA_SYNC_FLUSH; (PROPS) lzma_lzma_encoder_reset recomputes the lc/lp/pb masks; stream_encoder_update clears block_encoder_is_initialized before trying a new chain."
        + " get_thread hands every woken worker the cached filter chain."
        + ' (MTFLUSH) the threaded encoder reports a flush complete only when the output queue is empty and LZMA_FINISH only after the Index was encoded.'
-       + " (FSM) lzma_code's transition relation (C11) is evaluated here too: a completed flush/barrier returns to ISEQ_RUN.",
+       + " (FSM) lzma_code's transition relation (C11) is evaluated here too: a completed flush/barrier returns to ISEQ_RUN."
+       + ' (STRONG) the update functions replace the chain only after the copy succeeded (C10 rule).',
   technique="must-pass-through (edge cut) on finite-domain product graphs, dominator rules, table comparison",
   ref="4/C12"),
  "C09": dict(
@@ -153,7 +159,8 @@ CLAIMED = {
        + " (SATURATE) sums of memory-usage figures that may be UINT64_MAX are saturated."
        + ' (USAGE) memconfig callbacks report the figure the limit was checked against; (TERMS) LZMA2 history reserve and the MT-encoder default limit are part of the sums compared with the limit.'
        + " (OPTPATH) every store to lzma_lz_options on an encoder's init path has a live counterpart on its memusage path."
-       + ' (FREEFIRST) a cached buffer replaced because its size key changed is freed before its replacement is allocated; (NEEDED) lzma_stream_buffer_decode reports the need through *memlimit.',
+       + ' (FREEFIRST) a cached buffer replaced because its size key changed is freed before its replacement is allocated; (NEEDED) lzma_stream_buffer_decode reports the need through *memlimit.'
+       + ' (XZ limit-by-mode) every decoding mode of xz uses --memlimit-decompress; (PENDING) lzma_memlimit_set counts a Block waiting to be started; (KEPT) a cached worker exempted from freeing is reconciled with the worker actually obtained.',
   technique="must-pass-through (edge cut) on finite-domain product graphs, table joins, dominance rules",
   ref="4/C09"),
  "C04": dict(
@@ -193,7 +200,8 @@ CLAIMED = {
        "C05. Decoded content is NOT decided. Also (RESUME) the liveness/save-restore rule on the .lzma/.lz/auto decoders; (INITONCE/INITCONS) the format decoder is initialised once and a re-used decoder starts like a fresh one."
        + " Further rules: auto decoder goes to SEQ_FINISH only for .lzma; picky mode accepts exactly 2^n and 2^n+2^(n-1) (smear distance set); .lz header bytes are counted in member_size before any non-fatal return; (READFIRST) as in C06."
        + " (STALENEXT) as in C09."
-       + ' (C17-FAIL) xz accepts a .lzma/raw stream only if the one-byte probe finds nothing after it.',
+       + ' (C17-FAIL) xz accepts a .lzma/raw stream only if the one-byte probe finds nothing after it.'
+       + " (XZ lzma-dict-size-set) xz's .lzma heuristic accepts the same dictionary sizes as liblzma; (ACCUM) Stream Padding length survives slicing.",
   technique="finite-domain abstract interpretation vs spec tables, effect rules and must-pass rules on the product graph, cross-TU table agreement",
   ref="4/C16"),
  "C03": dict(
@@ -270,7 +278,8 @@ CLAIMED = {
        "hash, Backward Size, header/footer flags, Check, .lz footer) no success exit is reachable from the initial state; "
        "padding bytes compared on consumption; LZMA_STREAM_END only from terminal states. A deleted or weakened check is "
        "reported with the success exit it leaves unguarded. Does NOT decide that payload corruption is caught by the Check. Also: sizes from the Block Header are compared before they are overwritten with the counted sizes; each decoder flag member is derived from the flag constant of the same name; Backward Size is expanded in 64-bit arithmetic."
-       + " Further rules: (ACCUM) counters a decoder state tests accumulate across calls; (INITCONS) a re-used container decoder starts like a fresh one.",
+       + " Further rules: (ACCUM) counters a decoder state tests accumulate across calls; (INITCONS) a re-used container decoder starts like a fresh one."
+       + ' (IGNCHK) lzma_block_header_decode resets ignore_check on every OK path.',
   technique="must-pass-through (edge cut) on a finite-domain path-sensitive product graph with resume edges; interprocedural return-code sets",
   ref="4/C05"),
  "C06": dict(
@@ -283,7 +292,8 @@ CLAIMED = {
        + " (SEQLABEL) as in C03."
        + " (OUTGUARD) a decoder's state loop is not guarded by output space when some state needs none."
        + ' (ENCRESET) lzma_lzma_encoder_reset() stores to every counter that triggers recomputation of a price table (the tables are caches of the probabilities).'
-       + ' (EMITSTATE) rc_shift_low carries its loop state in rc members only; (CRC field-not-hashed) bytes of the CRC32 field are never hashed.',
+       + ' (EMITSTATE) rc_shift_low carries its loop state in rc members only; (CRC field-not-hashed) bytes of the CRC32 field are never hashed.'
+       + ' (STRMAP) the textual form of a filter chain covers the whole option map; MEMLIMIT_ERROR returns keep the running CRC32 consistent.',
   technique="liveness + reaching definitions over resume labels (clang CFG), finite-domain product-graph dataflow, call-graph reachability",
   ref="4/C06"),
 }
